@@ -196,11 +196,32 @@ SRC = (
     "def boom(x):\n"
     "    _trace.append(('boom', x))\n"
     "    raise KeyError('boom%s' % x)\n"
+    # nested calls: the bodies are plain functions wrapped afterwards, so that they get twins too (a pre-emption is possible
+    # inside the body, while the caller's per-call mutex is held and its frame is on the thread's call stack)
+    "NEST = {}\n"
+    "def ni(x):\n"
+    "    _trace.append(('ni', x))\n"
+    "    return 'i' * 50 + str(x)\n"
+    "ni = m.memento_function(version='1')(ni)\n"
+    "def na(x):\n"
+    "    _trace.append(('na', x))\n"
+    "    r = ni(NEST.get(('na', x), x))\n"
+    "    return 'a' * 40 + r\n"
+    "na = m.memento_function(version='1')(na)\n"
+    "def nb(x):\n"
+    "    _trace.append(('nb', x))\n"
+    "    r = ni(NEST.get(('nb', x), x))\n"
+    "    return 'b' * 40 + r\n"
+    "nb = m.memento_function(version='1')(nb)\n"
 )
+NESTED_BODIES = ("ni", "na", "nb")
 STORES = ["memory", "fs", "fs+cache:1", "fs+cache:small"]
 SMALL_MB = 330 / 1048576.0  # budget of 330 bytes: one ~150-byte value plus a few 48-byte mementos fit, two values do not
 KEYS = ["same-call", "same-fn-different-args", "different-fns", "same-failing-call", "different-fns-writing-one-override-key",
-        "different-fns-producing-the-same-bytes", "same-call-through-modifier-clones"]
+        "different-fns-producing-the-same-bytes", "same-call-through-modifier-clones", "nested-callers-sharing-one-callee",
+        "caller-and-its-own-callee", "nested-calls-crosswise-on-shared-locks"]
+NESTED_KEYS = (7, 8, 9)
+CROSSWISE = 9
 STATES = ["cold", "warm-store-cold-cache", "warm"]
 
 
@@ -255,6 +276,14 @@ def _calls(prog, key, nthreads):
     if k == "same-call-through-modifier-clones":
         # the same call f(1), made through the function itself, a force_local() clone and a partial() clone
         return [(prog.f, 1), (_Clone(prog.f.force_local(), prog.f), 1), (_Clone(prog.f.partial(1), prog.f, bound=True), 1)][:nthreads]
+    if k == "nested-callers-sharing-one-callee":
+        return [(prog.na, 1), (prog.nb, 1), (prog.na, 2)][:nthreads]
+    if k == "caller-and-its-own-callee":
+        return [(prog.na, 1), (prog.ni, 1), (prog.nb, 1)][:nthreads]
+    if k == "nested-calls-crosswise-on-shared-locks":
+        a, b, c, d = _find_shared_locks(prog)
+        prog.mod.NEST.update({("na", a): b, ("na", c): d})
+        return [(prog.na, a), (prog.na, c)]
     return [(prog.boom, 1)] * nthreads
 
 
@@ -273,8 +302,43 @@ class _KeepProgram:
             cls.prog.mod.__dict__["KeyOverrideResult"] = KeyOverrideResult
             cls.prog.exec(SRC)
             cls.prog.close = lambda: None
+            for nm in NESTED_BODIES:
+                gen.register(getattr(cls.prog.mod, nm).fn, "vpc09." + nm)
         cls.prog.trace.clear()
+        cls.prog.mod.NEST.clear()
         return cls.prog
+
+
+_SHARED = {}
+
+
+def _find_shared_locks(prog, R=600):
+    """Look for invocations that SHARE a per-call lock in the runner's table such that two nested calls take the shared locks in
+    opposite orders: na(a) -> ni(b), na(c) -> ni(d) with lock(na(a)) is lock(ni(d)) and lock(na(c)) is lock(ni(b)). Returns
+    (a, b, c, d) or None when no two of the 2R invocations examined share a lock (then nothing can be crossed)."""
+    if "r" not in _SHARED:
+        from twosigma.memento.reference import FunctionReferenceWithArguments as FWA
+
+        reset_memento_globals()
+        by_lock, keep = {}, []
+        for x in range(R):
+            for nm in ("na", "ni"):
+                lk = _runner_local._mutex_for_invocation(FWA(getattr(prog.mod, nm).fn_reference(), (x,), {}))
+                keep.append(lk)
+                again = _runner_local._mutex_for_invocation(FWA(getattr(prog.mod, nm).fn_reference(), (x,), {}))
+                check("the-same-invocation-always-gets-the-same-lock", again is lk, (nm, x))
+                by_lock.setdefault(id(lk), {"na": [], "ni": []})[nm].append(x)
+        both = [v for v in by_lock.values() if v["na"] and v["ni"]]
+        r = None
+        for i, u in enumerate(both):
+            for v in both[i + 1:]:
+                a, d, c, b = u["na"][0], u["ni"][0], v["na"][0], v["ni"][0]
+                if len({a, c}) == 2 and r is None:
+                    r = (a, b, c, d)
+        _SHARED["r"] = r
+        _SHARED["shared"] = sum(1 for v in by_lock.values() if len(v["na"]) + len(v["ni"]) > 1)
+        reset_memento_globals()
+    return _SHARED["r"]
 
 
 def _prepare(store, key, state, nthreads):
@@ -296,9 +360,28 @@ def _prepare(store, key, state, nthreads):
     return sb, prog, calls
 
 
+def _nest(nm, x):
+    return _KeepProgram.prog.mod.NEST.get((nm, x), x)
+
+
+_PURE = {"ni": lambda x: "i" * 50 + str(x), "na": lambda x: "a" * 40 + "i" * 50 + str(_nest("na", x)),
+         "nb": lambda x: "b" * 40 + "i" * 50 + str(_nest("nb", x))}
+
+
+def _deps_of(fn, x):
+    """the calls recorded as made by fn(x) (memento.invocation_metadata.invocations), as comparable text"""
+    mem = fn.memento(x)
+    if mem is None:
+        return None
+    return sorted("%s/%s" % (i.fn_reference.qualified_name, i.arg_hash) for i in mem.invocation_metadata.invocations)
+
+
 def _expected(calls):
     out = []
     for fn, x in calls:
+        if fn.__name__ in _PURE:
+            out.append(("ok", _PURE[fn.__name__](x)))  # (running a nested body would memoize its callee)
+            continue
         try:
             v = fn.fn(x)
             out.append(("ok", getattr(v, "result", v) if type(v).__name__ == "KeyOverrideResult" else v))
@@ -335,6 +418,7 @@ def _sequential_reference(store, key, state, nthreads):
                     pass
             c = cache_state(getattr(sb.storage(), "_memory_cache", None))
             bodies = sorted(prog.trace)
+            deps = [_deps_of(fn, x) if fn.__name__ != "boom" else None for fn, x in calls]
             if c not in [s for s, b in states]:
                 states.append((c, bodies))
         finally:
@@ -347,7 +431,7 @@ def _sequential_reference(store, key, state, nthreads):
     finally:
         prog.close()
         sb.close()
-    _SEQ[kk] = {"steps": steps, "cache_states": [s for s, b in states], "bodies": states[0][1]}
+    _SEQ[kk] = {"steps": steps, "cache_states": [s for s, b in states], "bodies": states[0][1], "deps": deps}
     return _SEQ[kk]
 
 
@@ -387,9 +471,21 @@ def _run_scenario(mode, store, key, state, schedule, nthreads=2, tag=""):
                 check(tag + "call-stack-empty-afterwards", cs is None or cs.depth() == 0, t)
         cache = getattr(sb.storage(), "_memory_cache", None)
         check_cache_invariant(cache, tag)
-        if cache is not None:
+        if cache is not None and key not in NESTED_KEYS:
             cs = cache_state(cache)
             check(tag + "cache-accounting-is-what-a-sequential-execution-leaves", cs in ref["cache_states"], lambda: (cs, ref["cache_states"]))
+        elif cache is not None:
+            # nested calls: a callee's entry is touched by whichever caller reads it, so the recency ORDER legitimately differs
+            # from every sequential order; the accounting (usage, resident entries with their sizes) is compared when nothing
+            # had to be evicted, the invariants always
+            cs = cache_state(cache)
+            if STORES[store] != "fs+cache:small":
+                acc = [(c["usage"], c["resident"]) for c in ref["cache_states"]]
+                check(tag + "cache-accounting-is-what-a-sequential-execution-leaves", (cs["usage"], cs["resident"]) in acc, lambda: (cs, acc))
+        for (fn, x), d_ in zip(calls, ref["deps"]):
+            if d_ is not None:
+                got_d = _deps_of(fn, x)
+                check(tag + "recorded-invocations-of-each-call-are-what-a-sequential-execution-records", got_d == d_, lambda: (fn.__name__, x, got_d, d_))
         # a result, once referenced by a memento, keeps its bytes (also when another call wrote the same override key meanwhile)
         for (fn, x), w_ in zip(calls, want):
             if w_[0] == "ok":
@@ -421,6 +517,10 @@ def _valid(store, key, state):
         return False  # concurrent WRITES to one key (an override key / one content key): filesystem stores, cold
     if KEYS[key] == "same-call-through-modifier-clones" and STATES[state] != "cold":
         return False
+    if key in NESTED_KEYS and STATES[state] == "warm":
+        return False
+    if key == CROSSWISE:
+        return False  # only in C09.lock_sharing, and only when the lock table shares locks between invocations
     return True
 
 
@@ -443,8 +543,10 @@ def _steps_of(sc, nthreads, schedule):
             try:
                 drv = run_threads("G", [_entry(fn, x) for fn, x in calls], schedule)
                 _LEN[kk] = drv.steps if drv.preemptions_used == len(schedule) else None
-            except (sched.InfeasibleSchedule, sched.Deadlock, sched.StepLimit):
+            except sched.InfeasibleSchedule:
                 _LEN[kk] = None
+            except (sched.Deadlock, sched.StepLimit):
+                _LEN[kk] = -1  # realisable, and it does not finish: the scenario run reports it
         finally:
             prog.close()
             sb.close()
@@ -479,6 +581,8 @@ def _decode_schedules(sc, nthreads, chunk, j1, j2, t1, t2, P, choose=pick):
         len1 = _steps_of(sc, nthreads, first)
     if len1 is None:
         assume(False)  # not realisable: no other thread can run at that step
+    if len1 == -1:
+        return [first]  # deadlock / no termination under this schedule: run it, the checks of the run report it
     if P < 2:
         return [first]
     nblocks = (len1 - s1 + BLOCK - 1) // BLOCK
@@ -578,6 +682,31 @@ def calls_p1(sc: tuple, j1: int):
     else:
         chunk = s % NCHUNK
         _calls_body(sc, chunk, (s // NCHUNK) + (1 if chunk == 0 else 0), 0, 1)
+
+
+@obligation(
+    "C09.lock_sharing",
+    covers=("lock-table-examined",),
+    bounds="the runner's per-call lock table is asked for the locks of 1200 invocations (na(x), ni(x), x < 600). If no two share a lock "
+           "object, nothing more is to be done (each call's lock is its own; the lock order follows the acyclic call graph). If some do, "
+           "two nested calls na(a) -> ni(b), na(c) -> ni(d) that take two shared locks in opposite orders are run on 2 threads (memory "
+           "back-end, cold) under EVERY schedule with at most 1 pre-emption: no deadlock, correct values, bodies once",
+    variables="choice: j1 (pre-emption step)",
+    stubs=("CoopLock / CoopLocal",),
+    budget_s={"quick": 120, "thorough": 300},
+    setup=install_twins,
+    replay_real=lambda args, label: _replay_real_calls(_p1_args(dict(args, sc=(0, CROSSWISE, 0))), label, 2, 1),
+    choice_vars=1,
+)
+def lock_sharing(j1: int):
+    with concrete_region():
+        install_twins()
+        found = _find_shared_locks(_KeepProgram.get())
+        cover("lock-table-examined")
+        note({"invocations-sharing-a-lock": _SHARED.get("shared"), "crosswise": found})
+    if found is None:
+        return
+    calls_p1((0, CROSSWISE, 0), j1)
 
 
 @obligation(
